@@ -16,7 +16,8 @@
 //! features_of(&resolve, world) -> BTreeSet<String> // feature tags computed from the Resolve
 //! excluded(backend, variant_name, &tags, corpus: Option<&CorpusEntry>) -> Option<String>
 //! corpus(repo_root) -> Vec<CorpusEntry>; CorpusEntry::load() -> (Resolve, WorldId)
-//! panic_signature(backend, msg, location) -> String
+//! panic_signature(backend, msg, location) -> String; panic_source_line(backend, location)
+//! directed_worlds() -> &[Directed]                // fixed WIT snippets reaching each known generator panic
 //! world_shape(&resolve, world, &tags) -> String
 //! validate_variants() -> Result<(), String>        // every flag list parses
 //! repo_root() -> PathBuf                           // $VERIF_REPO or /repo
@@ -673,16 +674,16 @@ pub fn excluded(backend: Backend, variant: &str, tags: &BTreeSet<String>, corpus
             if has("error-context") {
                 return r("config.error_context");
             }
-            if has("named-fixed-list") {
-                return r("named-fixed-length-list.wit => any named fixed-length list");
+            if has("fixed-list") || has("named-fixed-list") {
+                return r("named-fixed-length-list.wit => fixed-length lists (the only corpus file with them) are declared unsupported");
             }
         }
         Backend::Cpp => {
             if asyncish {
                 return r("config.async_ => any async-proposal feature");
             }
-            if has("named-fixed-list") {
-                return r("named-fixed-length-list.wit => any named fixed-length list");
+            if has("fixed-list") || has("named-fixed-list") {
+                return r("named-fixed-length-list.wit => fixed-length lists (the only corpus file with them) are declared unsupported");
             }
             if has("variant-case-named-as-type") {
                 return r("issue1514-6.wit => variant with a case named like the variant");
@@ -701,32 +702,32 @@ pub fn excluded(backend: Backend, variant: &str, tags: &BTreeSet<String>, corpus
             if has("world-func-payload-named") {
                 return r("issue-1433.wit => world-level function with future/stream of a named type");
             }
-            if has("named-fixed-list") {
-                return r("named-fixed-length-list.wit => any named fixed-length list");
+            if has("fixed-list") || has("named-fixed-list") {
+                return r("named-fixed-length-list.wit => fixed-length lists (the only corpus file with them) are declared unsupported");
             }
         }
         Backend::Go => {
             if has("error-context") {
                 return r("config.error_context");
             }
-            if has("named-fixed-list") {
-                return r("named-fixed-length-list.wit => any named fixed-length list");
+            if has("fixed-list") || has("named-fixed-list") {
+                return r("named-fixed-length-list.wit => fixed-length lists (the only corpus file with them) are declared unsupported");
             }
         }
         Backend::MoonBit => {
             if has("error-context") {
                 return r("config.error_context");
             }
-            if has("named-fixed-list") && (variant_is_async(backend, variant) || asyncish) {
-                return r("named-fixed-length-list.wit-async => named fixed-length list with async");
+            if (has("fixed-list") || has("named-fixed-list")) && (variant_is_async(backend, variant) || asyncish) {
+                return r("named-fixed-length-list.wit-async => fixed-length lists together with async are declared unsupported");
             }
         }
         Backend::Rust => {
             if variant == "borrowed-duplicate" {
                 return r("*-borrowed-duplicate (declared buggy ownership mode; feature not characterised) => whole variant");
             }
-            if has("named-fixed-list") && (variant_is_async(backend, variant) || asyncish) {
-                return r("named-fixed-length-list.wit-async => named fixed-length list with async");
+            if (has("fixed-list") || has("named-fixed-list")) && (variant_is_async(backend, variant) || asyncish) {
+                return r("named-fixed-length-list.wit-async => fixed-length lists together with async are declared unsupported");
             }
         }
         Backend::D => {
@@ -875,9 +876,10 @@ pub fn normalise_message(msg: &str) -> String {
     collapsed.chars().take(100).collect()
 }
 
-/// `<backend>:panic:<enclosing fn | file stem>:<normalised message>[:<source line>]`
-/// — no line numbers, ids or world-specific names, so one defect keeps one
-/// signature and two panic sites in one function stay distinguishable.
+/// `<backend>:panic:<enclosing fn | file stem>:<normalised message>` — no line
+/// numbers, ids or world-specific names, so one defect keeps one signature.
+/// (The panicking source line is used to recognise run-time formatted messages
+/// and is reported separately, see `panic_source_line`.)
 pub fn panic_signature(backend: Backend, msg: &str, location: &str) -> String {
     let (func, snippet) = panic_site(location, Some(backend));
     let file = location.rsplit_once(':').map(|x| x.0).unwrap_or(location);
@@ -907,17 +909,76 @@ pub fn panic_signature(backend: Backend, msg: &str, location: &str) -> String {
             };
         }
     }
-    let mut sig = format!("{}:panic:{}:{}", backend.name(), site, message);
-    if let Some(s) = snippet {
-        sig.push(':');
-        sig.push_str(&s);
-    }
-    sig
+    format!("{}:panic:{}:{}", backend.name(), site, message)
+}
+
+/// Whitespace-free text of the panicking source line (for the `what` of a finding).
+pub fn panic_source_line(backend: Backend, location: &str) -> Option<String> {
+    panic_site(location, Some(backend)).1
 }
 
 /// Identifier of a (world, backend, variant) case for reports.
 pub fn case_id(input: &str, backend: Backend, variant: &str) -> String {
     format!("{input}|{}|{variant}", backend.name())
+}
+
+// ---------------------------------------------------------------------------
+// directed worlds
+
+/// A fixed, minimal WIT document that reaches one known generator panic, so
+/// that the set of re-observed findings is the same at every seed.
+pub struct Directed {
+    pub name: &'static str,
+    pub wit: &'static str,
+    /// what it reaches (backend / variant / panic site), for humans
+    pub reaches: &'static str,
+}
+
+const DIRECTED: &[Directed] = &[
+    Directed {
+        name: "handle-alias",
+        wit: "package v:d;\ninterface i {\n  resource r;\n  type t = borrow<r>;\n  f: func(a: t);\n}\nworld w { import i; }\n",
+        reaches: "every backend: core define_type `handle types do not require definition` (cpp: todo generate for handle)",
+    },
+    Directed {
+        name: "c-autodrop-imported-borrow-in-list",
+        wit: "package v:d;\ninterface a { resource r; }\ninterface i {\n  use a.{r};\n  f: func(a: list<borrow<r>>);\n}\nworld w { export i; }\n",
+        reaches: "c --autodrop-borrows=yes: assert_no_droppable_borrows panic!",
+    },
+    Directed {
+        name: "c-param-named-ret",
+        wit: "package v:d;\ninterface i {\n  f: func(RET: u32) -> result<_, list<u8>>;\n}\nworld w { import i; }\n",
+        reaches: "c --no-sig-flattening: import_body_sync locals.insert(retptr).unwrap() (`ret` already defined)",
+    },
+    Directed {
+        name: "c-param-named-result",
+        wit: "package v:d;\ninterface i {\n  f: func(%result: u32) -> u32;\n  g: async func(%result: string) -> string;\n}\nworld w { import i; export i; }\n",
+        reaches: "c (all variants): FunctionBindgen::new locals.insert(name).unwrap() (`result` already defined)",
+    },
+    Directed {
+        name: "csharp-async-import-five-params",
+        wit: "package v:d;\ninterface i {\n  f: async func(a: u32, b: u32, c: u32, d: u32, e: u32) -> u64;\n}\nworld w { import i; }\n",
+        reaches: "csharp: gen_import_src todo!(indirect params not supported for async imports yet)",
+    },
+    Directed {
+        name: "csharp-async-export-borrow-of-used-resource",
+        wit: "package v:d;\ninterface a { resource r; }\ninterface b {\n  use a.{r};\n  f: async func(x: borrow<r>);\n}\nworld w { export b; }\n",
+        reaches: "csharp: emit `all_resources[&ty]` no entry found for key",
+    },
+    Directed {
+        name: "rust-format-package-named-abstract",
+        wit: "package ns1:abstract;\ninterface i { record r { a: f32 } f: func(a: r); }\nworld w { import i; }\n",
+        reaches: "rust --format: finish syn::parse_file(..).unwrap() — the generated source uses the reserved word `abstract` as a module name",
+    },
+    Directed {
+        name: "rust-fixed-list-of-borrows",
+        wit: "package v:d;\ninterface i {\n  resource r;\n  f: func(a: list<borrow<r>, 3>);\n}\nworld w { import i; }\n",
+        reaches: "rust (non-async): anonymous_type_handle assert!(self.mode.lifetime.is_some())",
+    },
+];
+
+pub fn directed_worlds() -> &'static [Directed] {
+    DIRECTED
 }
 
 // ---------------------------------------------------------------------------
